@@ -34,7 +34,39 @@ def build_corpus(shards, crates=None, segment=False):
 
 
 # ------------------------------------------------------------------------------------------------ TLC: inputs
-def enumerate_inputs(progs, workdir, tier, workers=8, timeout=1500, seminaive=False, cfg=None):
+def code_plan_from_summary(text):
+    """`Program::summary()` -> the structure CodePlan.tla reads: list of dict(looping, dynamic, lines)."""
+    sccs = []
+    for s in parse_summary(text):
+        lines = []
+        for ln in s["lines"]:
+            sj = "[SIMPLE JOIN]" in ln
+            nr = "[NOT REORDERABLE]" in ln
+            ln = ln.replace("[SIMPLE JOIN]", "").replace("[NOT REORDERABLE]", "").strip()
+            heads, _, body = ln.partition("<--")
+            items = []
+            for it in [x.strip() for x in body.split(", ") if x.strip()]:
+                m = re.match(r"^(.*)_indices_(.*)_(total\+delta|total|delta)$", it)
+                if it.startswith("for_"):
+                    items.append({"k": "for", "rel": "-", "ver": "-"})
+                elif it.startswith("if let"):
+                    items.append({"k": "iflet", "rel": "-", "ver": "-"})
+                elif it.startswith("if "):
+                    items.append({"k": "if", "rel": "-", "ver": "-"})
+                elif it.startswith("let "):
+                    items.append({"k": "let", "rel": "-", "ver": "-"})
+                elif it.startswith("agg "):
+                    items.append({"k": "agg", "rel": it[4:].split("_indices_")[0], "ver": "-"})
+                elif m:
+                    items.append({"k": "cl", "rel": m.group(1), "ver": m.group(3)})
+                else:
+                    items.append({"k": "unknown:" + it, "rel": "-", "ver": "-"})
+            lines.append({"heads": [h.strip() for h in heads.split(",") if h.strip()], "items": items, "sj": sj, "nr": nr})
+        sccs.append({"looping": s["looping"], "dynamic": s["dynamic"], "lines": lines})
+    return sccs
+
+
+def enumerate_inputs(progs, workdir, tier, workers=8, timeout=1500, seminaive=False, cfg=None, codeplan=None):
     """Runs SemGen on the given programs. Returns (TlcResult, {prog name: [case dict(pi, inputs, lm)]}).
     seminaive=True (always in the thorough tier) also checks SemiNaive.tla's evaluation strategy against the least
     model on every enumerated database; the negative control (plan without the last version vector) must then fail."""
@@ -43,13 +75,24 @@ def enumerate_inputs(progs, workdir, tier, workers=8, timeout=1500, seminaive=Fa
     with open(pf, "w") as f:
         json.dump(progs, f)
     cfg = cfg or ("SemGen_thorough.cfg" if tier == "thorough" else ("SemGen_sn.cfg" if seminaive else "SemGen.cfg"))
-    res = vlib.run_tlc("SemGen", cfg, env={"PROGS": pf}, workers=workers, timeout=timeout, tags=("CASE", "PLAN"), xss=True)
+    # the plans printed by the compiled programs (CodePlan.tla); programs without one are skipped by the invariant
+    cpf = os.path.join(workdir, "codeplan.json")
+    with open(cpf, "w") as f:
+        json.dump(codeplan or {"__none": []}, f)
+    res = vlib.run_tlc("SemGen", cfg, env={"PROGS": pf, "CODEPLAN": cpf}, workers=workers, timeout=timeout,
+                       tags=("CASE", "PLAN", "CPFAIL", "COVER"), xss=True)
     vlib.tlc_ok(res, "SemGen")
     by = {}
     res.plans = {}
+    res.cpfail = []
+    res.cover = {}
     for tag, c in res.lines:
         if tag == "PLAN":
             res.plans[c["prog"]] = c["sccs"]
+        elif tag == "CPFAIL":
+            res.cpfail.append(c)
+        elif tag == "COVER":
+            res.cover[c["prog"]] = c
         else:
             by.setdefault(c["prog"], []).append(c)
     for name in by:
